@@ -25,7 +25,7 @@ claims = {
          "unchanged() compares all heap arrays touched by the function on pre-existing objects; NewDirectiveType is trusted to be a pure function of the keyword text (dtOf); the 'option changes nothing else' two-run half is replaced by the readers/writers frame scans.",
          "contract-based deductive verification: conditional frame postconditions, VCs from go/ssa discharged by z3/cvc5", "DESIGN.md 4.C18"),
  "C09": ("proof",
-         "Partial claim: representation invariant of every ordered collection (order has no duplicates, every ordered key is present, as many keys as entries) preserved by Set/SetToTop with whole-view postconditions; key texts: HTTP interaction ids are injective (lemma, SMT strings); AddTag/AddServer keep the invariant; ToJson/ToJsonIndent return exactly the bytes encoding/json produced (no post-processing); every response and every request of an accepted project has a body; findUserTypes accepts only declared user types. Known finding: JSON-RPC ids are not injective.",
+         "Partial claim: representation invariant of every ordered collection (order has no duplicates, every ordered key is present, as many keys as entries) preserved by Set/SetToTop with whole-view postconditions; key texts: HTTP interaction ids are injective (lemma, SMT strings); AddTag/AddServer keep the invariant; ToJson/ToJsonIndent return exactly the bytes encoding/json produced (no post-processing); every response and every request of an accepted project has a body; findUserTypes accepts only declared user types; tagNames registers the interaction with every tag whose name it returns. Known finding: JSON-RPC ids are not injective.",
          "Assumed: fmt.Sprintf %s semantics for the two String() methods (trusted contracts); MarshalJSON emits one member per element of order (loop shape read, byte-level JSON is encoding/json's). UTF-8/JSON well-formedness and compact == indented are not claimed.",
          "contract-based deductive verification + SMT string lemmas", "DESIGN.md 4.C09"),
  "C11": ("proof",
@@ -33,7 +33,7 @@ claims = {
          "The remaining adders of setters.go / build_catalog_directives.go (interactions, types, enums, paths) are not yet under contract; 'one injected fault always causes rejection' end-to-end is not claimed.",
          "contract-based deductive verification: conditional frame postconditions (unchanged())", "DESIGN.md 4.C11"),
  "C07": ("proof",
-         "Partial claim: addMacro rejects a macro without name, without body, or with a duplicate name and leaves the macro table unchanged; processPasteDirective rejects an undefined macro; the replay pass never changes the parent of a pre-existing directive; discipline of the macro cycle search (each search starts from an empty visited set, the target is never marked, the set only grows). Mutual recursion of macros (a crash before) is repaired by a fix: commit; completeness of the depth-first search and termination are not machine-checked.",
+         "Partial claim: addMacro rejects a macro without name, without body, or with a duplicate name and leaves the macro table unchanged; after collectMacro no top-level directive is a MACRO (a macro that is never pasted never reaches the catalog build); processPasteDirective rejects an undefined macro; the replay pass never changes the parent of a pre-existing directive; discipline of the macro cycle search (each search starts from an empty visited set, the target is never marked, the set only grows). Mutual recursion of macros (a crash before) is repaired by a fix: commit; completeness of the depth-first search and termination are not machine-checked.",
          "Not claimed: 'paste == inlining', 'unused macro contributes nothing' (two runs); termination of the macro expansion (the cycle check is a graph search that is not under a functional contract).",
          "contract-based deductive verification", "DESIGN.md 4.C07"),
  "C13": ("proof",
